@@ -127,12 +127,12 @@ type Signer struct {
 	// "" (nil signer), "sha" NewSha256Signer, "shaInt" NewSha256IntSigner, "hmac"
 	// NewHmacSigner, "hmacInt" NewHmacIntSigner, "ecdsa" NewEccSigner, "rsa" NewRsaSigner
 	Kind    string `json:"k,omitempty"`
-	Key     Blob   `json:"key,omitempty"`   // HMAC key
+	Key     Blob   `json:"key,omitzero"`    // HMAC key
 	KeyName *Name  `json:"kname,omitempty"` // key locator (hmac, ecdsa, rsa); nil = none
 	ForCert bool   `json:"cert,omitempty"`  // hmac/ecdsa/rsa: add a validity period
 	ForInt  bool   `json:"int,omitempty"`   // ecdsa/rsa: Interest flavour (nonce, time, sequence number)
 	NowMs   int64  `json:"now,omitempty"`   // clock of the harness timer given to shaInt/hmacInt
-	TNonce  Blob   `json:"tn,omitempty"`    // nonce the harness timer hands out
+	TNonce  Blob   `json:"tn,omitzero"`     // nonce the harness timer hands out
 	ExpireS int64  `json:"exp,omitempty"`   // certificate lifetime in seconds (ForCert)
 }
 
@@ -206,10 +206,10 @@ type fixedTimer struct {
 	nonce []byte
 }
 
-func (t fixedTimer) Now() time.Time                               { return t.now }
-func (t fixedTimer) Sleep(time.Duration)                          {}
+func (t fixedTimer) Now() time.Time                              { return t.now }
+func (t fixedTimer) Sleep(time.Duration)                         {}
 func (t fixedTimer) Schedule(time.Duration, func()) func() error { return func() error { return nil } }
-func (t fixedTimer) Nonce() []byte                                { return t.nonce }
+func (t fixedTimer) Nonce() []byte                               { return t.nonce }
 
 // recSigner wraps a shipped signer and records what it was asked and what it answered.
 type recSigner struct {
@@ -986,11 +986,11 @@ func fillSig(v *view, s ndn.Signature) {
 
 // decoded is what one decoding call of the API returned.
 type decoded struct {
-	v       *view
-	covered []byte
-	ncov    int
-	sig     ndn.Signature
-	err     error // decode error or recovered panic
+	v        *view
+	covered  []byte
+	ncov     int
+	sig      ndn.Signature
+	err      error // decode error or recovered panic
 	panicked bool
 }
 
